@@ -365,7 +365,7 @@ fn c15_for<S: AnyScan>(cfg: &Cfg, rep: &mut Report, timeouts: &[u64]) {
         rep.inconclusive(format!("C15 pair explorer for {} did not reach a fixpoint for some pair", S::NAME));
     }
     // seeded random interleavings, up to 16 channels, full alphabet
-    let total = cfg.size(1_500, 1_000_000, 60_000_000);
+    let total = cfg.size(1_500, 3_000_000, 80_000_000);
     let timeouts: Vec<u64> = timeouts.to_vec();
     par(cfg, rep, |shard, nsh, rep| {
         let mut rng = Rng::derive(cfg.seed, 0xC15_00 + shard as u64 + S::NAME.len() as u64 * 1000);
@@ -559,7 +559,7 @@ fn c16_for<S: AnyScan>(cfg: &Cfg, rep: &mut Report, timeouts: &[u64]) {
         }
     }
     // twin comparison: a history with random non-contributing insertions vs the same history without
-    let total = cfg.size(1_000, 600_000, 40_000_000);
+    let total = cfg.size(1_000, 2_000_000, 60_000_000);
     let timeouts: Vec<u64> = timeouts.to_vec();
     par(cfg, rep, |shard, nsh, rep| {
         let mut rng = Rng::derive(cfg.seed, 0xC16_00 + shard as u64 + S::NAME.len() as u64 * 1000);
@@ -921,7 +921,7 @@ fn c17_for<S: AnyScan>(cfg: &Cfg, rep: &mut Report, timeouts: &[u64]) {
         }
     }
     // random full-alphabet states
-    let total = cfg.size(200, 40_000, 2_000_000);
+    let total = cfg.size(200, 150_000, 3_000_000);
     let timeouts: Vec<u64> = timeouts.to_vec();
     par(cfg, rep, |shard, nsh, rep| {
         let mut rng = Rng::derive(cfg.seed, 0xC17_00 + shard as u64 + S::NAME.len() as u64 * 1000);
